@@ -55,6 +55,17 @@ Theorem C15_restart :
   forall st : state, rows (step st Restart) = rows st /\ disk_in (step st Restart) = disk_in st /\ disk_out (step st Restart) = disk_out st.
 Proof. intros. repeat split. Qed.
 
+(* time alone: a pass that follows another after time has passed - with no activity, no settings change and no restart in between - removes
+   exactly the files that have aged past the maximum age in the meantime (and leaves none older than it) *)
+Theorem C15_clock_alone :
+  forall st : state, UniqueKeys (rows st) ->
+    let s1 := evict st in
+    let s2 := evict (step s1 Tick) in
+    (forall a, max_age2 st = Some a -> forall x, In x (rows s2) -> 2 * r_age x <= a) /\
+    (forall a, max_age2 st = Some a -> rows s2 = filter (fun x => negb (a <? 2 * r_age x)) (age_all (rows s1))) /\
+    (max_age2 st = None -> rows s2 = age_all (rows s1)).
+Proof. exact evict_after_tick. Qed.
+
 Print Assumptions C15_reachable_unique.
 Print Assumptions C15_evict.
 Print Assumptions C15_lru_prefix_minimal.
@@ -62,6 +73,7 @@ Print Assumptions C15_idempotent.
 Print Assumptions C15_bookkeeping.
 Print Assumptions C15_confined.
 Print Assumptions C15_restart.
+Print Assumptions C15_clock_alone.
 
 (* Non-vacuity: three equally old 100-byte files and an older 50-byte one; limit 300 removes only the old one,
    limit exactly at the total removes nothing, an externally deleted file is forgotten when its turn comes. *)
@@ -70,4 +82,10 @@ Example ex_c15 :
       (run init [Create 1 100 5; Create 2 100 5; Create 3 100 5; Create 4 50 9; SetMaxSize (Some 300); Evict; Evict;
                  ExtDelete 1; SetMaxSize (Some 250); Evict])
   = [([1; 2; 3], [1; 2; 3]); ([1; 2; 3], [1; 2; 3]); ([2; 3], [2; 3])].
+Proof. vm_compute. reflexivity. Qed.
+
+(* a file two units old under a limit of five half units survives the first pass and is removed by the pass after one more unit has gone by *)
+Example ex_c15_clock :
+  map (fun s => map r_key (rows s)) (run init [Create 1 10 2; Create 2 10 1; SetMaxAge (Some 5); Evict; Tick; Evict; Tick; Evict])
+  = [[1; 2]; [2]; []].
 Proof. vm_compute. reflexivity. Qed.
